@@ -13,6 +13,7 @@ package c10
 import (
 	"archive/tar"
 	"bytes"
+	"compress/gzip"
 	"crypto/sha256"
 	"fmt"
 	"io"
@@ -20,12 +21,15 @@ import (
 	"net/http/httptest"
 	"os"
 	"runtime"
+	"runtime/debug"
 	"strconv"
 	"strings"
 	"sync"
 	"sync/atomic"
 	"syscall"
 	"time"
+
+	"github.com/klauspost/compress/zstd"
 
 	"github.com/quay/claircore"
 )
@@ -35,16 +39,28 @@ const mediaType = "application/vnd.oci.image.layer.v1.tar"
 // layer is one blob the loopback server can serve.
 type layer struct {
 	idx      int
-	body     []byte
+	body     []byte // what the server sends (possibly compressed); the digest is of these bytes
+	plain    []byte // what a user must read back: the uncompressed tar stream
+	plainSum [32]byte
 	digest   string
 	sum      [32]byte
 	validTar bool
+	z        int // how the tar stream is sent
 	fileName string
 	fileData []byte
 }
 
-func mkLayer(idx int, validTar bool, size int) *layer {
-	l := &layer{idx: idx, validTar: validTar}
+// how a layer's tar stream is sent
+const (
+	plainTar = iota
+	gzipTar
+	zstdTar
+)
+
+func mkLayer(idx int, validTar bool, size int) *layer { return mkLayerZ(idx, validTar, size, plainTar) }
+
+func mkLayerZ(idx int, validTar bool, size int, z int) *layer {
+	l := &layer{idx: idx, validTar: validTar, z: z}
 	if validTar {
 		l.fileName = "f" + strconv.Itoa(idx)
 		l.fileData = bytes.Repeat([]byte{byte('a' + idx%26)}, size)
@@ -58,6 +74,22 @@ func mkLayer(idx int, validTar bool, size int) *layer {
 	} else {
 		// passes the fetcher (checksum is right, no compression) but is not a tar archive
 		l.body = bytes.Repeat([]byte(fmt.Sprintf("not a tar %d ", idx)), 200)
+	}
+	l.plain = l.body
+	l.plainSum = sha256.Sum256(l.plain)
+	switch z {
+	case gzipTar:
+		var b bytes.Buffer
+		w := gzip.NewWriter(&b)
+		w.Write(l.plain)
+		w.Close()
+		l.body = b.Bytes()
+	case zstdTar:
+		var b bytes.Buffer
+		w, _ := zstd.NewWriter(&b)
+		w.Write(l.plain)
+		w.Close()
+		l.body = b.Bytes()
 	}
 	l.sum = sha256.Sum256(l.body)
 	l.digest = fmt.Sprintf("sha256:%x", l.sum)
@@ -126,7 +158,8 @@ func (s *server) openGate(k int) {
 }
 
 func (s *server) handle(w http.ResponseWriter, r *http.Request) {
-	k, err := strconv.Atoi(strings.TrimPrefix(r.URL.Path, "/l/"))
+	// the same layers under a second path: one digest, two URIs (a mirror)
+	k, err := strconv.Atoi(strings.TrimPrefix(strings.TrimPrefix(r.URL.Path, "/l/"), "/m/"))
 	if err != nil || k < 0 || k >= len(s.layers) {
 		http.NotFound(w, r)
 		return
@@ -176,7 +209,11 @@ func (s *server) handle(w http.ResponseWriter, r *http.Request) {
 		w.Header().Set("Content-Type", "text/html")
 		w.Write(l.body)
 	case srvMislabelled:
-		w.Header().Set("Content-Type", "application/gzip")
+		if l.z == gzipTar {
+			w.Header().Set("Content-Type", "application/x-tar")
+		} else {
+			w.Header().Set("Content-Type", "application/gzip")
+		}
 		w.Write(l.body)
 	case srvEmpty:
 		w.WriteHeader(http.StatusOK)
@@ -201,6 +238,9 @@ func (s *server) handle(w http.ResponseWriter, r *http.Request) {
 }
 
 func (s *server) uri(k int) string { return s.ts.URL + "/l/" + strconv.Itoa(k) }
+
+// altURI is another address of the same layer.
+func (s *server) altURI(k int) string { return s.ts.URL + "/m/" + strconv.Itoa(k) }
 
 func (s *server) close() {
 	for k := range s.layers {
@@ -316,6 +356,13 @@ func dirEntries(dir string) int {
 	return len(ents)
 }
 
+// ReadAtSeeker is what Layer.Reader returns, as far as the checks use it.
+type ReadAtSeeker interface {
+	io.Reader
+	io.ReaderAt
+	io.Closer
+}
+
 // readBack checks that an initialised Layer shows exactly the layer's bytes:
 // the tar stream through Reader and the file through FS.
 func readBack(l *claircore.Layer, want *layer) string {
@@ -331,9 +378,46 @@ func readBack(l *claircore.Layer, want *layer) string {
 	}
 	var got [32]byte
 	copy(got[:], h.Sum(nil))
-	if got != want.sum || int(n) != len(want.body) {
-		return fmt.Sprintf("content-mismatch read=%d want=%d", n, len(want.body))
+	if got != want.plainSum || int(n) != len(want.plain) {
+		return fmt.Sprintf("content-mismatch read=%d want=%d", n, len(want.plain))
 	}
+	// the same through every way a Reader can be read: plain Read (what tar.NewReader
+	// uses; no WriteTo short cut), a second Reader of the same Layer with its own cursor,
+	// ReadAt, and the seek-to-the-end way of asking for the size
+	rd1, err := l.Reader()
+	if err != nil {
+		return "reader-error:" + err.Error()
+	}
+	rd2, err := l.Reader()
+	if err != nil {
+		rd1.Close()
+		return "reader-error:" + err.Error()
+	}
+	for i, rd := range []ReadAtSeeker{rd1, rd2} {
+		h := sha256.New()
+		n, err := io.Copy(h, struct{ io.Reader }{rd})
+		if err != nil {
+			return "read-error:" + err.Error()
+		}
+		copy(got[:], h.Sum(nil))
+		if got != want.plainSum || int(n) != len(want.plain) {
+			return fmt.Sprintf("content-mismatch-through-Read reader=%d read=%d want=%d", i, n, len(want.plain))
+		}
+	}
+	if sk, ok := rd1.(io.Seeker); ok {
+		if end, err := sk.Seek(0, io.SeekEnd); err != nil || int(end) != len(want.plain) {
+			return fmt.Sprintf("seek-to-end=%d err=%v want=%d", end, err, len(want.plain))
+		}
+	}
+	if len(want.plain) > 64 {
+		buf := make([]byte, 32)
+		off := len(want.plain) / 2
+		if n, err := rd2.ReadAt(buf, int64(off)); err != nil || n != 32 || !bytes.Equal(buf, want.plain[off:off+32]) {
+			return fmt.Sprintf("readat-mismatch off=%d n=%d err=%v", off, n, err)
+		}
+	}
+	rd1.Close()
+	rd2.Close()
 	sys, err := l.FS()
 	if err != nil {
 		return "fs-error:" + err.Error()
@@ -397,6 +481,30 @@ func flightGoroutines() int {
 	return bytes.Count(buf, []byte("singleflight.(*Group).doCall("))
 }
 
+// checkedOutConns closes the idle connections of the arena's HTTP client and reports how many
+// connections are still there afterwards: those were taken for a fetch and never given back
+// (a response body that was not closed), each with its descriptor and its two goroutines.
+func checkedOutConns(c *http.Client) int {
+	c.CloseIdleConnections()
+	deadline := time.Now().Add(5 * time.Second)
+	for {
+		buf := make([]byte, 1<<18)
+		for {
+			n := runtime.Stack(buf, true)
+			if n < len(buf) {
+				buf = buf[:n]
+				break
+			}
+			buf = make([]byte, 2*len(buf))
+		}
+		n := bytes.Count(buf, []byte("net/http.(*persistConn).readLoop("))
+		if n == 0 || time.Now().After(deadline) {
+			return n
+		}
+		time.Sleep(200 * time.Microsecond)
+	}
+}
+
 // settleGoroutines waits until the goroutine count is back at the baseline.
 func settleGoroutines(base int, slack int) int {
 	deadline := time.Now().Add(3 * time.Second)
@@ -411,7 +519,21 @@ func settleGoroutines(base int, slack int) int {
 
 // runFinalizers forces two collections and waits until the finalizer
 // goroutine has drained what they queued.
+// noGC is set after the first unexplained failure: an implementation that loses handles
+// also loses Layers, and a Layer that is collected without Close panics in its finalizer
+// (by design) - which would take the harness and its evidence down.
+var noGC atomic.Bool
+
+func stopCollecting() {
+	if !noGC.Swap(true) {
+		debug.SetGCPercent(-1)
+	}
+}
+
 func runFinalizers() {
+	if noGC.Load() {
+		return
+	}
 	for i := 0; i < 2; i++ {
 		runtime.GC()
 		done := make(chan struct{})
